@@ -729,15 +729,18 @@ def decorate_with_checker(func: CallableT) -> CallableT:
                 in_progress = set()
                 _IN_PROGRESS.set(in_progress)
 
+            # If the wrapper is already checking the contracts for the wrapped function, avoid a recursive loop
+            # by skipping any subsequent contract checks for the same function.
+            #
+            # This test must happen before the try-finally block: a re-entrant call must not remove the function
+            # from the in-progress set since the outer call is still checking the contracts.
+            if id_func in in_progress:
+                return await func(*args, **kwargs)
+
+            in_progress.add(id_func)
+
             # Use try-finally instead of ExitStack for performance.
             try:
-                # If the wrapper is already checking the contracts for the wrapped function, avoid a recursive loop
-                # by skipping any subsequent contract checks for the same function.
-                if id_func in in_progress:
-                    return await func(*args, **kwargs)
-
-                in_progress.add(id_func)
-
                 (preconditions, snapshots, postconditions) = _unpack_pre_snap_posts(
                     wrapper
                 )
@@ -802,15 +805,18 @@ def decorate_with_checker(func: CallableT) -> CallableT:
                 in_progress = set()
                 _IN_PROGRESS.set(in_progress)
 
+            # If the wrapper is already checking the contracts for the wrapped function, avoid a recursive loop
+            # by skipping any subsequent contract checks for the same function.
+            #
+            # This test must happen before the try-finally block: a re-entrant call must not remove the function
+            # from the in-progress set since the outer call is still checking the contracts.
+            if id_func in in_progress:
+                return func(*args, **kwargs)
+
+            in_progress.add(id_func)
+
             # Use try-finally instead of ExitStack for performance.
             try:
-                # If the wrapper is already checking the contracts for the wrapped function, avoid a recursive loop
-                # by skipping any subsequent contract checks for the same function.
-                if id_func in in_progress:
-                    return func(*args, **kwargs)
-
-                in_progress.add(id_func)
-
                 (preconditions, snapshots, postconditions) = _unpack_pre_snap_posts(
                     wrapper
                 )
